@@ -557,7 +557,20 @@ class PVLParser(object):
                 "an Assignment-Statement."
             )
 
-        self.parse_around_equals(tokens)
+        try:
+            self.parse_around_equals(tokens)
+        except LexerError:
+            raise
+        except ValueError:
+            # The Parameter Name has already been consumed, so this is
+            # not a "first token" mismatch that the caller can recover
+            # from by trying something else (that would silently drop
+            # the name).
+            tokens.throw(
+                ValueError,
+                "Expecting an equals sign after the Parameter Name "
+                f'"{parameter_name}" ',
+            )
 
         try:
             # print(f'parameter name: {parameter_name}')
